@@ -58,7 +58,8 @@ def grid(name, rng, n):
                      param_identifier_size=ids)
         elif name == "CT14":
             k = pick(ks)
-            c.update(param_k=k, param_k_prime=pick(ks), param_l=pick([8, 16, 32]), param_identifier_size=pick([4, 8, 3]))
+            c.update(param_k=k, param_k_prime=(ks[(i + 1) % 3] if fixed else rng.choice(ks)), param_l=pick([8, 16, 32]),
+                     param_identifier_size=pick([4, 8, 3]))
         elif name == "ANSS16":
             k = pick(ks)
             c.update(param_lambda=pick([16, 32, 8]), param_k=k, param_k_prime=k, param_l=pick([8, 16, 32]),
